@@ -85,6 +85,13 @@ fn first_index<T>(v: &[T], f: impl Fn(&T) -> bool) -> Option<usize> {
     v.iter().position(f)
 }
 
+/// records of modules this program does not have can only come from another simulation of this process
+/// (state leaking between simulations is C04's / C20's statement): such runs are not judged by the other oracles
+pub fn foreign_records(prog: &NetProgram, res: &NetResult) -> bool {
+    let n = normalise(prog).modules.len();
+    res.trace.iter().any(|r| r.m as usize >= n)
+}
+
 // ---------------------------------------------------------------- C08
 
 pub fn check_c08(prog: &NetProgram, res: &NetResult, info: &mut RunInfo) {
@@ -415,6 +422,8 @@ pub fn expected_len(prog: &NetProgram, m: usize, site: usize, ai: usize) -> Opti
     let spec = prog.modules.get(m)?;
     let act = if site >= PE_SITE_BASE {
         return Some(64);
+    } else if site == END_SITE {
+        spec.end_acts.get(ai)?
     } else if site >= RX_SITE_BASE {
         &spec.rx.get(site - RX_SITE_BASE)?.act
     } else {
@@ -943,6 +952,8 @@ pub fn expected_len_uid(prog: &NetProgram, m: usize, site: usize, ai: usize, uid
     let spec = prog.modules.get(m)?;
     let act = if site >= PE_SITE_BASE {
         return Some(64);
+    } else if site == END_SITE {
+        spec.end_acts.get(ai)?
     } else if site >= RX_SITE_BASE {
         &spec.rx.get(site - RX_SITE_BASE)?.act
     } else {
@@ -1042,9 +1053,20 @@ pub fn check_c13(prog: &NetProgram, faulty: &NetResult, twin: &NetResult, info: 
             }
         }
     }
+    // a panic inside a joined task is contained by tokio: the module itself is not deactivated by des;
+    // for those only non-abort, attribution and isolation are demanded
+    let task_victim = |v: usize| prog.modules[v].tasks.iter().any(|t| t.steps.iter().any(|s| matches!(s, crate::asy::AStep::Panic)));
+    let callback_victim = |v: usize| {
+        let sp = &prog.modules[v];
+        sp.panic_at != 255 || sp.rx.iter().any(|r| matches!(r.act, Act::Panic)) || sp.beats.iter().any(|b| b.acts.iter().any(|a| matches!(a, Act::Panic)))
+    };
     // victims: deactivated, no further messages or wake-ups
     let mut pending_after = false;
     for &v in &victims {
+        if task_victim(v) {
+            info.probe("joined_task_panicked");
+            continue;
+        }
         let ps = panic_seq[v].unwrap();
         let at_end = faulty.trace.iter().any(|r| r.seq == ps.saturating_sub(1) && r.m as usize == v && matches!(r.ev, Ev::End { .. }));
         if let Some(r) = faulty.trace.iter().find(|r| r.m as usize == v && r.seq > ps && matches!(r.ev, Ev::Recv { .. } | Ev::Beat { .. })) {
@@ -1060,8 +1082,37 @@ pub fn check_c13(prog: &NetProgram, faulty: &NetResult, twin: &NetResult, info: 
         let _ = &mut pending_after;
     }
     // error report: exactly the non-catching victims
-    let mut expect_err: Vec<String> = victims.iter().filter(|v| !prog.modules[**v].catching).map(|v| module_path(prog, *v)).collect();
+    // modules that have both kinds of fault are not judged on the error list (which fault happens first decides)
+    if victims.iter().any(|v| task_victim(*v) && callback_victim(*v)) {
+        info.nontrivial = !victims.is_empty() && healthy_busy;
+        return;
+    }
+    let mut expect_err: Vec<String> = victims.iter().filter(|v| !task_victim(**v) && !prog.modules[**v].catching).map(|v| module_path(prog, *v)).collect();
     expect_err.sort();
+    // joined tasks that panicked must be attributed to their module
+    for &v in victims.iter().filter(|v| task_victim(**v)) {
+        let joined = prog.modules[v].tasks.iter().any(|t| t.join != 0 && t.steps.iter().any(|s| matches!(s, crate::asy::AStep::Panic)));
+        let reported = faulty.errors.iter().any(|(k, p)| k == "join-panic" && *p == module_path(prog, v));
+        if joined && !reported {
+            info.violate(Violation::new("C13", "task-panic-not-reported", format!(
+                "a joined task of module {} panicked but run() does not report it (errors: {:?}, ok: {:?})", module_path(prog, v), faulty.errors, faulty.ok)));
+            return;
+        }
+    }
+    if let Some((_, p)) = faulty.errors.iter().find(|(k, p)| k == "join-panic" && !victims.iter().any(|v| task_victim(*v) && module_path(prog, *v) == *p)) {
+        info.violate(Violation::new("C13", "error-set", format!("run() reports a panicked task of module {p}, where no task panicked")));
+        return;
+    }
+    if expect_err.is_empty() && victims.iter().any(|v| task_victim(*v)) {
+        // only task panics: the callback-panic list must be empty, nothing else to compare
+        let got: Vec<&(String, String)> = faulty.errors.iter().filter(|(k, _)| k == "panic").collect();
+        if !got.is_empty() {
+            info.violate(Violation::new("C13", "error-set", format!("run() reports callback panics {got:?} but no callback panicked")));
+        }
+        info.events += faulty.ok.map_or(0, |o| o.1 as u64);
+        info.nontrivial = !victims.is_empty() && healthy_busy;
+        return;
+    }
     let mut got_err: Vec<String> = faulty.errors.iter().filter(|(k, _)| k == "panic").map(|(_, p)| p.clone()).collect();
     got_err.sort();
     got_err.dedup();
